@@ -25,6 +25,8 @@ structure DS where
   s : S
   wlen : Nat := 0
   whash : UInt64 := 14695981039346656037
+  alen : Nat := 0
+  ahash : UInt64 := 14695981039346656037
   nctl : Nat := 0
   dead : Bool := false
 
@@ -45,10 +47,14 @@ def showCtl (g : Cfg) (c : Ctl) : String :=
 def observe (d : DS) (s : S) : DS × String :=
   let wlen := d.wlen + s.wire.length
   let whash := s.wire.foldl (fun h x => (h ^^^ x.toUInt64) * 1099511628211) d.whash
+  let alen := d.alen + s.accepted.length
+  let ahash := s.accepted.foldl (fun h x => (h ^^^ x.toUInt64) * 1099511628211) d.ahash
   let ctl := String.intercalate "," ((s.ctl.drop d.nctl).map (showCtl d.g))
   let items := String.intercalate "," (s.wl.map showItem)
-  let str := s!"closed={b2s s.closed} left={s.left} wl=[{items}] wadded={b2s s.isWAdded} reg={b2s s.reg} ctl=[{ctl}] wire={wlen}:{whash} onclose={s.onClose} wtimer={b2s s.wTimer}"
-  ({ d with s := { s with wire := [], accepted := [] }, wlen, whash, nctl := s.ctl.length }, str)
+  let pend := pending d.g s.wl
+  let acc := if s.closed then "-" else s!"{alen}:{ahash}"
+  let str := s!"closed={b2s s.closed} left={s.left} wl=[{items}] pend={pend.length}:{Drv.fnv pend} acc={acc} wadded={b2s s.isWAdded} reg={b2s s.reg} kout={b2s (s.reg && s.kOut)} dis={b2s s.disarmed} ctl=[{ctl}] wire={wlen}:{whash} onclose={s.onClose} wtimer={b2s s.wTimer}"
+  ({ d with s := { s with wire := [], accepted := [] }, wlen, whash, alen, ahash, nctl := s.ctl.length }, str)
 
 inductive Call
   | write (b : Bytes) (k : KAns)
